@@ -185,6 +185,13 @@ func (c *clientProcessRunner) consumeOutput() {
 			c.err.CompareAndSwap(nil, &reasonForReturn)
 			c.terminated.Store(true)
 			c.proc.abort()
+			// We will not read any more results, but the client may still be
+			// writing some. Keep draining its output so that it is not blocked
+			// forever: a client that runs in-process only ends (and releases
+			// senders blocked on its stdin) once its pending writes complete.
+			go func() {
+				_, _ = io.Copy(io.Discard, c.proc.stdout)
+			}()
 		}
 		c.closeSend() // stop the send side now that we're done with receive side
 
